@@ -299,10 +299,8 @@ func CreateFunctionData[F any](featureType model.FeatureTypeType) []F {
 		}...)
 	}
 
-	if len(result) == 0 {
-		panic(fmt.Errorf("unknown featureType '%s'", featureType))
-	}
-
+	// a feature type without any known function, e.g. one announced by a remote device
+	// in its detailed discovery data, simply has no function data
 	return result
 }
 
